@@ -458,6 +458,27 @@ def run(ctx):
     with ctx.rule("C03.CLEAR", "a searcher's reused buffer starts every input at offset 0 (shared with C02.REFILL|clear)", floor=2, kind="RW") as r:
         from . import c02
         c02.clear_rule(ctx, r)
+    with ctx.rule("C03.BYTES", "a search that runs to completion reports the cursor (the input's length) as bytes searched: the offset of "
+                  "binary data replaces it only when the search quits there", floor=2, kind="GUARD") as r:
+        GLUE = "grep_searcher::searcher::glue::"
+        for strat in ("SliceByLine", "MultiLine"):
+            bc = facts.fn(GLUE + strat + "::byte_count")
+            ebc = ExprBuilder(bc)
+            bo = bc.calls_to(CORE + "::binary_byte_offset")
+            # blocks that answer with (something derived from) the binary offset and not the cursor
+            offs = [bb for bb, j, st in bc.stmts() if st["k"] == "assign" and st["place"]["l"] == 0 and not st["place"]["p"] and
+                    mentions_call(ebc.rvalue(st["rv"]), CORE + "::binary_byte_offset") and not mentions_call(ebc.rvalue(st["rv"]), CORE + "::pos")]
+            if not bo or not offs:
+                r.ok("bytes|" + strat, "byte_count never answers with the binary offset", fn=bc, nontrivial=False)
+                continue
+            quit_sw = cond_switches(bc, lambda e: mentions_call(e, CORE + "::quits_on_binary", "grep_searcher::searcher::BinaryDetection::quit_byte")
+                                    or any(x.k == "field" and x[3] == "binary" for x in walk(e)), ebc)
+            if quit_sw and not guarded(bc, offs, quit_sw, True):
+                r.ok("bytes|" + strat, "binary offset as byte count only under quit-on-binary", fn=bc)
+            else:
+                r.bad("bytes|" + strat, "%s::byte_count answers with the offset of the first binary byte whenever there is one before the "
+                      "cursor, also in convert mode where the search carries on to the end: a completed search of a mapped file "
+                      "then reports fewer bytes searched than the same file read through a reader" % strat, fn=bc, construct="byte_count")
     with ctx.rule("C03.COUNT", "incremental line counting: count [last_line_counted, upto) once, then advance the mark", floor=3, kind="GUARD/RW") as r:
         f = facts.fn(CORE + "::count_lines")
         eb = ExprBuilder(f)
